@@ -78,12 +78,12 @@ def number(case):
                 keep.append(f); nf += 1
         d["fin"] = keep
     for ident, ent in case["tab"]:
-        if ent[0] != "obj":
+        for d in ([] if ent[0] == "obj" else ent[1] if ent[0] == "seq" else [ent[1]]):
             keep = []
-            for f in ent[1]["fin"]:
+            for f in d["fin"]:
                 if nf < MAXFIN:
                     keep.append(f); nf += 1
-            ent[1]["fin"] = keep
+            d["fin"] = keep
     u = 1
     for d in case["defs"] + [case["bk"], case["of"]]:
         for part in ("items", "post", "fin"):
@@ -262,6 +262,27 @@ def gen_hist(tier, rng):
             out.append(with_prog(base, [["resolve", [fsp, fsp]], ["convert", False, n]]))
             out.append(with_prog(base, [["resolve", [fsp] + rng.sample(specs, m) + [fsp]], ["convert", False, n]]))
             out.append(with_prog(base, [["resolve", [fsp]], ["resolve", [fsp]], ["tree", [n, n + 1]], ["convert", False, n + 2]]))
+        # --- ties: a callable with a memory named twice - equal (priority, spec), different contents: stable order
+        if bi % 2 == 0:
+            seqb = copy.deepcopy(base)
+            seqb["tab"] = [e for e in seqb["tab"] if e[1][0] == "obj"]
+            pr = rng.choice(PRIOS + [seqb["defs"][0]["prio"]] * 3)
+            ds = []
+            for k in range(3):
+                d = g_def(rng, rng.choice(PNAMES), rich=False, tpl=0)
+                d["fin"] = []
+                d["items"].insert(0, {"id": "t%d" % k, "kind": ["add_cond", "t", "c%d" % k], "cond": None})
+                d["prio"] = pr
+                ds.append(d)
+            seqb["tab"].append(["sq", ["seq", ds]])
+            osp = [e[0] for e in seqb["tab"] if e[1][0] == "obj"]
+            out.append(with_prog(seqb, [["resolve", ["sq", "sq"]], ["convert", False, n]]))
+            out.append(with_prog(seqb, [["resolve", ["sq", "sq", "sq"]], ["convert", False, n]]))
+            for _ in range(3):
+                mix = osp + ["sq", "sq"]
+                rng.shuffle(mix)
+                out.append(with_prog(seqb, [["resolve", mix], ["convert", False, n]]))
+            out.append(with_prog(seqb, [["resolve", ["sq"]], ["resolve", ["sq", "sq"]], ["tree", [n + 1, n]], ["convert", False, n + 2]]))
         # --- hostile: the same object twice (also under two identifiers), unknown names, nothing at all
         h = rng.randrange(n)
         alias = copy.deepcopy(base)
@@ -396,7 +417,11 @@ def hist_to_coq(c, r):
     rules = clist(f"{{| r_field := {cstr(x['f'])}; r_value := {cstr(x['v'])}; r_two := {cbool(x['two'])} |}}" for x in c["rules"])
     # table order for the model: files are consulted only when the identifier is not in the dict (last entry of a key wins)
     ents = [e for e in c["tab"] if e[1][0] == "file"] + [e for e in c["tab"] if e[1][0] != "file"]
-    tab = clist(f"({cstr(k)}, {'RObj ' + cnat(e[1]) if e[0] == 'obj' else 'RCall ' + c_def(e[1])})" for k, e in ents)
+    def c_ent(e):
+        if e[0] == "obj": return "RObj " + cnat(e[1])
+        if e[0] == "seq": return "RSeq " + clist(c_def(d) for d in e[1])
+        return "RCall " + c_def(e[1])
+    tab = clist(f"({cstr(k)}, {c_ent(e)})" for k, e in ents)
     return (f"(({c_fmt(c['fmt'])}, {clist(c_def(d) for d in c['defs'])}, {tab}, {c_def(c['bk'])}, {c_def(c['of'])}, "
             f"{rules}, {clist(c_op(o) for o in c['prog'])}, {c_result(r)}) : hist_case)")
 
@@ -417,7 +442,7 @@ def stale_runs(c):
     cls = ({"bk"} if observable(c["bk"]) else set()) | ({"of"} if observable(c["of"]) else set())
     ident = {}          # identifier -> operand index (None: callable / file, a fresh pipeline every time)
     for k, e in [x for x in c["tab"] if x[1][0] == "file"] + [x for x in c["tab"] if x[1][0] != "file"]:
-        ident[k] = e[1] if e[0] == "obj" else None
+        ident[k] = e[1] if e[0] == "obj" else None       # callable / file / callable with memory: fresh pipelines
     last, stale = {}, {}
 
     def tl(t):
@@ -496,20 +521,26 @@ PROPERTY = Property(
     pid="C14", props_file="Props/C14.v",
     suites=[Suite("hist", gen_hist, "run_hist", REQ, "judge_hist", hist_to_coq, known=known_hist,
                   mutate=mutate_hist, stratum=stratum, shard=150)],
-    rule="histories of pipeline API calls over 1..5 operand pipelines (priorities incl. ties, names ordered by code point, "
-         "items set_state/field_name_suffix/add_condition with optional processing_state rule condition, post-processing embed / "
-         "simple_template reading pipeline.state or pipeline.vars, concat finalizers, vars) plus the backend's own and output-format "
-         "pipeline: every permutation of the resolver argument list (all 120 for 5 pipelines in the thorough tier, 24 sampled in quick), "
-         "every bracketing of + (<= 14) in two operand orders, operands fresh or used once (earlier conversion on another backend instance / "
-         "earlier sum), resolving the same objects twice, conversions without re-initialisation after a later addition (D18 class), "
-         "p + p, duplicate/unknown resolver names, empty lists, random histories of <= 7 calls; 1-2 rules, one- and two-condition rules, "
-         "formats default/test/state. Observed: Backend.convert() or convert_rule()+finalize() output, per-rule pipeline.applied and state, "
-         "applied_ids, vars. non-trivial = the history contains a sum/resolve of >= 2 pipelines and >= 2 pipelines are non-empty; "
-         "distinct by case hash",
+    rule="histories of pipeline API calls over 1..5 operand pipelines (priorities incl. many ties; `name` of the pipelines unrelated to the "
+         "resolver identifiers: equal, reversed order, colliding, missing), resolver tables built from dicts: identifier -> registered object | "
+         "callable | callable with a memory (ties with different contents), plus YAML files found by path whose name: differs from the file name, "
+         "aliases (one object under two identifiers); items set_state/field_name_suffix/add_condition with optional processing_state rule "
+         "condition, post-processing embed / simple_template reading pipeline.state or pipeline.vars, concat finalizers, vars; the backend's own "
+         "and output-format pipeline: every permutation of the resolver argument list over all table entries (all 120 for 5 entries in the "
+         "thorough tier, 24 sampled in quick) and of sub-lists, every bracketing of + (<= 14) in two operand orders and sum() of the same lists, "
+         "operands fresh or used once (earlier conversion on another backend instance / earlier sum), resolving the same objects / callables / "
+         "files twice, conversions without re-initialisation after a later addition (D18 class), p + p, sum([p, p]), duplicate/unknown resolver "
+         "names, the pipeline's name used as spec, empty lists, stage-heavy pipelines (>= 2 post-processing items each, several finalizers), "
+         "random histories of <= 7 calls; 1-2 rules, one- and two-condition rules, formats default/test/state. Observed: Backend.convert() or "
+         "convert_rule()+finalize() output, per-rule pipeline.applied and state, applied_ids, vars. non-trivial = the history contains a "
+         "sum/resolve of >= 2 pipelines and >= 2 pipelines/definitions are non-empty; distinct by case hash",
     assumptions=["conversion of the restricted rule shape ({field: value} AND-ed with added conditions) by the verification backend "
                  "(TextQueryTestBackend with in-expressions switched off) is modelled as text (query_of), validated by the correspondence only",
                  "item semantics of set_state, field_name_suffix, add_condition, embed, simple_template, concat and the processing_state "
                  "rule condition are modelled (a_item_step/a_post_step/fin_step), validated by the correspondence only; identifiers are non-empty",
-                 "not modelled: nested transformations/finalizers (own nested pipelines), Jinja templates, resolver entries that are callables, "
-                 "file or directory paths, allowed_backends/target check, correlation rules, backend_options, field-name tracking state"],
+                 "callables / YAML files / callables with a memory are modelled (fresh objects per resolution, Model.Pipeline.minst_all) and checked by the "
+                 "correspondence; theorems C14_resolver_perm/_concat/_history_partial are stated for tables of registered objects, "
+                 "C14_resolver_entries_perm/_order for all tables; a callable with a memory is modelled with the history-wide instantiation counter "
+                 "(generator: it is then the only callable/file of the table)",
+                 "not modelled: nested transformations/finalizers (own nested pipelines), Jinja templates, directory specs, allowed_backends/target check, correlation rules, backend_options, field-name tracking state"],
 )
